@@ -1681,6 +1681,9 @@ class FunctionVerifier:
                 if kwd.arg == "pattern":
                     v = self.ev(kwd.value, sq, False)
                     pats.append(v.e if isinstance(v, (SInt, SBool)) else v.v)
+            from .externals import _clean_patterns
+
+            pats = _clean_patterns(pats)
             try:
                 st.assume(z3.ForAll([gc], body, patterns=pats) if pats else z3.ForAll([gc], body))
             except z3.Z3Exception:
